@@ -120,21 +120,29 @@ class Check(PropertyCheck):
     design_ref = "§5 C06"
     level_text = ("Lean theorems about the executable model of the HTTP/2<->HTTP/1 conversion code (split_pseudo_headers, "
                   "parse_h2_request_headers / parse_h2_response_headers, validate_request + validate_headers, "
-                  "Http1Client.send's Host insertion / Cookie joining / body framing, assemble_request_head, the reason "
-                  "phrase table, format_h2_request/response_headers with h2's normalize_outbound_headers): for EVERY header "
-                  "block the model accepts, the HTTP/1 bytes written parse — with a strict RFC 9112 reference parser "
-                  "written in Lean — to exactly one message with the same method, path, Host, fields and body "
-                  "(h2_to_h1_single_message), and the h1->h2, h2->h2 and status conversions keep the message "
-                  "(h1_to_h2, h2_to_h2, status_preserved). Model tied to the real layers by differential runs over all "
-                  "four (client, server) version pairs with adversarial header blocks.")
-    level_note = ("trusted: that hyper-h2 enforces the validator predicate H2Valid (transcribed from h2/utilities.py; checked "
-                  "differentially every run, not proved), url.parse_authority (its verdict is passed to the model as a "
-                  "parameter), hpack. HTTP/3 is NOT exercised (Http3Server/Http3Client share parse_h2_request_headers / "
-                  "format_h2_*_headers and the Http1 conversion with HTTP/2, which are covered; the aioquic H3 framing is "
-                  "not). Trailers are only required to survive HTTP/2 -> HTTP/2: mitmproxy has no HTTP/1 trailer support, "
-                  "an HTTP/1 hop is treated as unable to carry them. The streamed (chunked) HTTP/2 -> HTTP/1 conversion is "
-                  "covered by the model and the differential run; the Lean round-trip theorem is proved for the buffered "
-                  "(Content-Length) conversion, and for the chunked framing under the stated chunk-size law.")
+                  "Http1Client.send's Host insertion / Cookie joining / Content-Length for a buffered body, "
+                  "assemble_request_head, the reason phrase table, format_h2_request/response_headers with h2's "
+                  "normalize_outbound_headers): h2_to_h1_single_message — for EVERY header block that hyper-h2's validator "
+                  "(H2Valid, transcribed from h2/utilities.py) and the model of mitmproxy's checks accept, with a buffered body "
+                  "obeying h2's content-length law, the HTTP/1 bytes written are read by a strict RFC 9112 reference reader "
+                  "written in Lean as exactly ONE message with the same method, path, fields and body; h2_to_h1_host / "
+                  "_cookie / _other_fields say what that field list is (Host from :authority, cookies joined with '; ', "
+                  "everything else unchanged and in order); h1_to_h2 (+ _names), h2_to_h2 are parse-back theorems for the "
+                  "blocks written over HTTP/2; status_preserved covers the three response conversions. The model is tied to "
+                  "the real layers by byte-exact differential runs over all four (client, server) version pairs with "
+                  "adversarial header blocks, and the Lean reference reader to harness/common/refparsers.py on every byte "
+                  "string mitmproxy wrote to an HTTP/1 server.")
+    level_note = ("trusted / not proved: that hyper-h2 enforces H2Valid and content-length = body length (hypotheses of the "
+                  "theorems; exercised by the differential run — the one hole found, END_STREAM on the HEADERS frame, is "
+                  "finding F-C06b); url.parse_authority (its verdict is a parameter); hpack. PARTIAL: the streamed "
+                  "(flow.request.stream) conversion is neither modelled nor proved — it is checked by the oracle only and "
+                  "violates the property for bodies without content-length (finding F-C06a, pinned by an upstream test). "
+                  "HTTP/3 is NOT exercised: Http3Server/Http3Client share parse_h2_request_headers / format_h2_*_headers and "
+                  "the Http1 conversion with HTTP/2 (covered), the aioquic H3 framing is not. Trailers are only required to "
+                  "survive HTTP/2 -> HTTP/2 (oracle + model): mitmproxy has no HTTP/1 trailer support, an HTTP/1 hop is "
+                  "treated as unable to carry them. The Lean reference reader refuses obs-fold (stricter than the Python one). "
+                  "The rig runs HttpLayer in transparent mode over plain TCP; mitmproxy's own error pages are outside the "
+                  "conversion oracle.")
     technique = "Lean 4 proof (printer/parser round trip against a reference parser, by induction over header lists) + differential model-vs-code correspondence through the real HTTP layers"
     rule = ("one exchange per case over (cv, sv) in {1,2}^2: ~65% well-formed messages from a field pool (mixed-case names, "
             "several Cookie fields, Host/:authority variants, bodies with and without Content-Length, trailers), ~25% one "
